@@ -8,6 +8,8 @@ extern "C" {
 void *new_fft_table(int32_t nn);
 double *fft_table_get_buffer(const void *tables);
 void *new_ifft_table(int32_t nn);
+void delete_fft_table(void *tables);
+void delete_ifft_table(void *tables);
 double *ifft_table_get_buffer(const void *tables);
 void fft_model(const void *tables);
 void ifft_model(void *tables);
